@@ -11,6 +11,7 @@ package model
 //@ modifies nothing
 //@ ensures a != nil ==> (result != nil && fresh(ptrof(result)) && sametype(result, a))
 //@ ensures a == nil ==> result == nil
+//@ ensures forall c: []ColumnKey :: (vfiOK(result, c) == vfiOK(a, c)) && (vfiOK(a, c) ==> vfi(result, c) == vfi(a, c))
 
 //@ func (DatabaseModel).NewModelInfo
 //@ modifies nothing
